@@ -42,12 +42,43 @@ def gen_cases(seed, tier):
     for i in range(n):
         ss = stream_seeds(seed, ID, i)
         out.append({"run_index": i, "scenario_seed": ss["scenario"], "fault_seed": ss["faults"], "tier": tier})
+    # preconditioning="flow": black-box finite-difference Jacobian through the kernel seam, real flow back-ends
+    combos = [("zuko", "numpy"), ("zuko", "torch"), ("flowjax", "numpy"), ("flowjax", "jax")]
+    if tier != "quick":
+        combos = combos * 3 + [("zuko", "jax"), ("flowjax", "torch")]
+    for j, (backend, xp) in enumerate(combos):
+        ss = stream_seeds(seed, ID, 50000 + j)
+        out.insert(j, {"run_index": 50000 + j, "kind": "flowpre", "backend": backend, "xp": xp, "scenario_seed": ss["scenario"],
+                       "fault_seed": ss["faults"], "tier": tier})
     return out
+
+
+def flowpre_scenario(case):
+    """preconditioning='flow' with a REAL flow back-end (the repo's ZukoFlow / FlowJax forward/inverse are the map)."""
+    from .c20 import FLOWS
+    from ..runner import default_scenario
+    from ..env import make_target
+
+    rng = rng_from(case["scenario_seed"])
+    t = make_target("gauss_box", 2, rng)
+    fl, fit = FLOWS[case["backend"]]
+    fl = dict(fl)
+    scn = default_scenario(t, sampler="smc", n_samples=24, xp=case["xp"], dtype="float64",
+                           sample_kwargs={"sampler_kwargs": {"n_steps": 1}, "target_efficiency": 0.6},
+                           preconditioning="flow", preconditioning_kwargs={"fit_kwargs": dict(fit)}, fit_kwargs=dict(fit),
+                           train={"n": 200, "shift": 1.0, "widen": 1.4},
+                           seeds={"rng": int(rng.integers(1 << 30)), "entropy": int(rng.integers(1 << 30)), "train": int(rng.integers(1 << 30)), "torch": int(rng.integers(1 << 30))})
+    scn["flow"] = fl
+    scn["_precond"] = "flow"
+    scn["_schedule_mode"] = "adaptive"
+    return scn
 
 
 def scenario_of(case):
     if "scenario" in case:
         return case["scenario"]
+    if case.get("kind") == "flowpre":
+        return flowpre_scenario(case)
     rng = rng_from(case["scenario_seed"])
     scn = runs.draw_any(int(rng.integers(1 << 62)), case["tier"], samplers=("smc", "smc", "emcee_smc", "minipcn", "emcee"),
                         checkpoint_modes=("none",), n_final=("none", "larger"), kinds=("gauss_box", "hug", "periodic", "bimodal"),
@@ -103,7 +134,84 @@ class CModel:
         return self.m.inverse(z)
 
 
+FD_H = 1e-4
+
+
+def run_flowpre_case(case, workdir):
+    """Black-box oracle: the simulator knows nothing about the map.  Around a few start points of every kernel it asks the
+    log_prob_fn about z +- h e_j, reads the x that reaches the user's model, forms dx/dz by central differences and
+    requires value(z) == (1-beta) log q(x) + beta (log L + log pi)(x) + log|det dx/dz|."""
+    scn = scenario_of(case)
+    where = {**O.scn_where(scn), "backend": case["backend"]}
+    t = Target.from_dict(scn["target"])
+    d = t.dims
+    M_PTS = 3
+
+    def probe_fn(ki, z0):
+        pts = []
+        for i in range(min(M_PTS, len(z0))):
+            for j in range(d):
+                for sgn in (1.0, -1.0):
+                    p = z0[i].copy()
+                    p[j] += sgn * FD_H
+                    pts.append(p)
+        return [np.asarray(pts)]
+
+    r = run_process(scn, workdir, fresh_file=True, record_kernel=True, probe_fn=probe_fn)
+    key = ["smc", "flow:" + case["backend"], scn["xp"], scn["dtype"], []]
+    if r.status != "ok":
+        v = O.violation("c05.flow_preconditioning_raised",
+                        f"preconditioning='flow' with flow_backend={case['backend']!r} (sample namespace {scn['xp']}) raised {r.error}",
+                        {**where, "error_type": r.error_type}, tb=(r.tb or "")[-1500:])
+        return {"violations": [v], "aborted": None, "evaluations": 1, "events": len(r.trace.events), "nontrivial_keys": [key],
+                "digest": digest_of([r.error]), "sample": jsonable({"flowpre": case["backend"], "xp": scn["xp"], "status": r.status, "error": r.error}),
+                "probes": {}, "faults_fired": {}}
+    flow = r.aspire.flow
+    V, judged = [], 0
+    by_kernel = {}
+    for e in r.seam.evals:
+        by_kernel.setdefault(e["i"], []).append(e)
+    for ki, evs in sorted(by_kernel.items()):
+        c0 = next((e for e in evs if e["kind"] == "chain0"), None)
+        pr = next((e for e in evs if e["kind"] == "probe"), None)
+        if c0 is None or pr is None or c0["prior"] is None or pr["prior"] is None:
+            continue
+        z0 = np.asarray(c0["z"], dtype=np.float64)
+        x0 = np.asarray(c0["prior"][0], dtype=np.float64)
+        val = np.asarray(c0["val"], dtype=np.float64).reshape(-1)
+        xp_ = np.asarray(pr["prior"][0], dtype=np.float64)
+        beta = float(c0["beta"])
+        lq = np.asarray(to_np(flow.log_prob(x0)), dtype=np.float64)
+        ll, lp = t.log_like(x0), t.log_prior(x0)
+        n_pts = min(M_PTS, len(z0))
+        for i in range(n_pts):
+            J = np.zeros((d, d))
+            for j in range(d):
+                xa = xp_[(i * d + j) * 2]
+                xb = xp_[(i * d + j) * 2 + 1]
+                J[:, j] = (xa - xb) / (2 * FD_H)
+            sign, logdet = np.linalg.slogdet(J)
+            if not np.isfinite(lp[i]) or not np.isfinite(ll[i]):
+                continue
+            want = (1 - beta) * lq[i] + beta * (ll[i] + lp[i]) + logdet
+            judged += 1
+            tol = 5e-2  # the zuko/flowjax preconditioning flows evaluate in float32; FD noise ~1e-3..1e-2, a missing term is O(1)
+            if not np.isfinite(val[i]) or abs(val[i] - want) > tol * (1 + abs(logdet)):
+                V.append(O.violation(
+                    "c05.flow_value",
+                    f"kernel {ki} (beta={beta!r}), preconditioning='flow' ({case['backend']}): value handed to the kernel {val[i]!r}, tempered target "
+                    f"{float((1 - beta) * lq[i] + beta * (ll[i] + lp[i]))!r} + finite-difference log|det dx/dz| {float(logdet)!r} = {float(want)!r}",
+                    where, diff=float(val[i] - want)))
+                break
+    return {"violations": V, "aborted": None, "evaluations": max(judged, 1), "events": len(r.trace.events), "iterations": len(r.history.beta),
+            "probes": {"flow_preconditioning_points_judged": judged}, "faults_fired": {"kernel_probe": judged * 2 * d},
+            "nontrivial_keys": [key] if judged else [], "digest": digest_of([r.summary().get("h.beta"), [v["oracle"] for v in V]]),
+            "sample": jsonable({"flowpre": case["backend"], "xp": scn["xp"], "points_judged": judged})}
+
+
 def run_case(case, workdir):
+    if case.get("kind") == "flowpre":
+        return run_flowpre_case(case, workdir)
     scn = scenario_of(case)
     rng = rng_from(case["fault_seed"])
     where = O.scn_where(scn)
